@@ -129,6 +129,34 @@ static int ill_dims(int id, int v, int base, int d[6], int pl[2], int *e, int *f
   }
   return 0;
 }
+/* life-cycle calls in the middle of a run: m4ri_mmc_cleanup() / m4ri_fini() + m4ri_init() between creations and releases, all
+   inside ONE case so that a stale cache slot or table pointer is used under the sanitizer within the case that caused it */
+static void touch(mzd_t *M, int salt) { for (int i = 0; i < M->nrows; i += 1 + M->nrows / 7) for (int j = 0; j < M->ncols; j += 1 + M->ncols / 9) mzd_write_bit(M, i, j, (i + j + salt) & 1); }
+static void mode_lifecycle(void) {
+  static const int SZ[][2] = {{1, 64}, {5, 130}, {64, 64}, {33, 200}, {200, 129}, {700, 700}};
+  for (int si = 0; si < 6; si++) for (int seq = 0; seq < 7; seq++) {
+    int r = SZ[si][0], c = SZ[si][1];
+    if (!vx_case_begin("lifecycle|seq=%d|%dx%d", seq, r, c)) continue;
+    mzd_t *A = mzd_init(r, c), *B = NULL, *M[20]; touch(A, 1);
+    switch (seq) {
+    case 0: mzd_free(A); m4ri_mmc_cleanup(); B = mzd_init(r, c); touch(B, 2); if (!mzd_is_zero(B)) { mzd_t *T = mzd_transpose(NULL, B); mzd_free(T); } mzd_free(B); break;
+    case 1: mzd_free(A); m4ri_fini(); m4ri_init(); B = mzd_init(r, c); touch(B, 3); { mzd_t *P = mzd_mul(NULL, B, B->nrows == B->ncols ? B : (A = mzd_transpose(NULL, B)), 0); mzd_free(P); if (B->nrows != B->ncols) mzd_free(A); } mzd_free(B); break;
+    case 2: mzd_free(A); m4ri_mmc_cleanup(); m4ri_mmc_cleanup(); m4ri_fini(); m4ri_fini(); m4ri_init(); B = mzd_init(r, c); touch(B, 4); mzd_free(B); break;
+    case 3: /* live matrix whose block came out of the cache, then a flush while it is alive */
+      mzd_free(A); B = mzd_init(r, c); touch(B, 5); m4ri_mmc_cleanup(); A = mzd_init(r, c); touch(A, 6); touch(B, 7); mzd_free(A); mzd_free(B); m4ri_mmc_cleanup(); break;
+    case 4: /* more distinct sizes than cache slots, flush, the same sizes again */
+      mzd_free(A); for (int i = 0; i < 20; i++) { M[i] = mzd_init(r + i, c); touch(M[i], i); } for (int i = 0; i < 20; i++) mzd_free(M[i]); m4ri_mmc_cleanup();
+      for (int i = 0; i < 20; i++) { M[i] = mzd_init(r + i, c); touch(M[i], i + 1); } for (int i = 19; i >= 0; i--) mzd_free(M[i]); break;
+    case 5: /* elimination (tables, code book) around a finalise / initialise cycle */
+      { rci_t r1 = mzd_echelonize_m4ri(A, 1, 0); m4ri_fini(); m4ri_init(); touch(A, 8); rci_t r2 = mzd_echelonize_m4ri(A, 1, 3); (void)r1; (void)r2; mzd_free(A); } break;
+    default: /* flush between a window and its parent's release */
+      { mzd_t *W = mzd_init_window(A, 0, 0, A->nrows, A->ncols > 64 ? 64 : A->ncols); m4ri_mmc_cleanup(); touch(W, 9); mzd_free(W); mzd_free(A); m4ri_mmc_cleanup(); B = mzd_init(r, c); touch(B, 1); mzd_free(B); } break;
+    }
+    vx_input((uint64_t)si * 16 + (uint64_t)seq, 1);
+    vx_case_end();
+  }
+}
+
 static void mode_illdim(void) {
   ARENA = mmap(NULL, ARENA_SZ, PROT_READ | PROT_WRITE, MAP_SHARED | MAP_ANONYMOUS, -1, 0); SNAP = vx_malloc(ARENA_SZ);
   static const int BASES[] = {3, 20, 60, 64, 129};
@@ -182,6 +210,6 @@ static void rec_spec(const rk_spec *s, void *u) {
 
 void prop_enumerate(void) {
   const char *mode = vx_arg("mode", "ops");
-  if (!strcmp(mode, "ops")) mode_ops(); else if (!strcmp(mode, "rec")) rk_enumerate(1 << F_REC, 0, 0, rec_spec, NULL); else mode_illdim();
+  if (!strcmp(mode, "ops")) mode_ops(); else if (!strcmp(mode, "lifecycle")) mode_lifecycle(); else if (!strcmp(mode, "rec")) rk_enumerate(1 << F_REC, 0, 0, rec_spec, NULL); else mode_illdim();
 }
 int main(int argc, char **argv) { return vx_main(argc, argv); }
